@@ -395,10 +395,17 @@ pub fn encode_header(h: &Header, w: &mut BitWriter) {
                     }
                     if form == PlusForm::Full {
                         if let Size::StdCustom(cw, ch) = h.size {
-                            w.put(2, 4); // PAR 12:11
+                            // pixel aspect ratio: every defined code in turn (1 square, 2..5 the
+                            // standard ratios, 15 extended with an explicit EPAR pair)
+                            let par = [2u64, 1, 3, 15, 4, 5, 2, 15][(h.tr as usize / 4) % 8];
+                            w.put(par, 4);
                             w.put((cw as u64 / 4).saturating_sub(1), 9);
                             w.put_bit(true);
                             w.put(ch as u64 / 4, 9);
+                            if par == 15 {
+                                w.put(h.tr as u64 | 1, 8); // EPAR width (non-zero)
+                                w.put(h.quant as u64 | 2, 8); // EPAR height (non-zero)
+                            }
                         }
                         if h.umv_coded() {
                             // UUI: "1" limited range, "01" unlimited
